@@ -179,13 +179,14 @@ class ContractBroken(Exception):
 
 def _post_get_name(self, item, result):
     MON["get_name_evals"] += 1
-    key = (item.get_dir(), result.lower())
+    key = (id(self), item.get_dir(), result.lower())  # (per selector object: the repository's tests start every test with a fresh one)
+    MON.setdefault("selectors", {})[id(self)] = self  # keep it alive: ids are not reused
     prev = MON["map"].get(key)
     if prev is None:
         MON["map"][key] = (id(item), item.name, type(item).__name__)
     elif prev[0] != id(item) and item.get_dir() is not None:
         if len(MON["collisions"]) < 50:
-            MON["collisions"].append({"dir": key[0], "stem": key[1], "first": prev[1:], "second": (item.name, type(item).__name__)})
+            MON["collisions"].append({"dir": key[1], "stem": key[2], "first": prev[1:], "second": (item.name, type(item).__name__)})
     return True
 
 
@@ -389,6 +390,11 @@ def main():
         for v in r["viol"]:
             run.violation(v["kf"], v["w"])
     run.max_samples = 2
+    if run.tier == "thorough":
+        # one more workload for the contracts: the repository's own test-suite (hand-written inputs)
+        from vf import repo_tests
+
+        repo_tests.attach(run, PID)
     run.finish(floors={"evaluations": 120, "distinct_nontrivial": 100, "entities_with_pages_checked": 1500, "contract_evals_get_name": 5000,
                        "fs_write_events_under_output": 3000, "collision_scenarios": 12})
 
